@@ -81,7 +81,8 @@ type spCfg struct {
 	SysQoS     spSysQoS    `json:"sysqos"`
 	HostApps   []spHostApp `json:"host_apps,omitempty"`
 	SysUse     int64       `json:"sys_use"`
-	NodeLow    bool        `json:"node_low,omitempty"` // the node usage metric under-reports (below the sum of the pods)
+	NodeLow    bool        `json:"node_low,omitempty"`  // the node usage metric under-reports (below the sum of the pods)
+	StartLag   int         `json:"start_lag,omitempty"` // rounds before the first agent incarnation receives the NodeResourceTopology
 }
 
 type spOp struct {
@@ -107,6 +108,8 @@ type spOp struct {
 	Gap     bool `json:"gap,omitempty"`  // round: the collector did not run at all since the previous round
 	Miss    int  `json:"miss,omitempty"` // round: 1 node series missing, 2 all pod series, 4 host apps, 8 one pod (MissPod)
 	MissPod int  `json:"miss_pod,omitempty"`
+
+	TopoLag int `json:"topo_lag,omitempty"` // restart: rounds before the new incarnation receives the NodeResourceTopology
 
 	What string `json:"what,omitempty"` // informer: node | topo | slo | cpuinfo | pods
 	On   bool   `json:"on,omitempty"`   // informer: object available again
@@ -319,6 +322,9 @@ func (spEngine) Generate(p *sim.Plan, g *sim.Rng) {
 	}
 	cfg.SysUse = usage(int64(n) * 150)
 	cfg.NodeLow = g.Bool(0.05)
+	if g.Bool(0.1) {
+		cfg.StartLag = g.PickInt(1, 1, 2)
+	}
 
 	// faults: ~40% of the runs are fault-free
 	if g.Bool(0.6) {
@@ -483,7 +489,13 @@ func (spEngine) Generate(p *sim.Plan, g *sim.Rng) {
 			sq := spGenSysQoS(g, ids)
 			ops = append(ops, spOp{K: "sysqos", SysQoS: &sq})
 		case x < 95:
-			ops = append(ops, spOp{K: "restart"})
+			// agent restart; in half of them the new incarnation's informer delivers the NodeResourceTopology only after the
+			// first 1-3 rounds (GetNodeTopo()==nil meanwhile), while the cgroup files persist from before the restart
+			op := spOp{K: "restart"}
+			if g.Bool(0.5) {
+				op.TopoLag = g.PickInt(1, 1, 2, 3)
+			}
+			ops = append(ops, op)
 		case x < 98:
 			ops = append(ops, spOp{K: "informer", What: g.Pick("node", "topo", "slo", "cpuinfo", "pods"), On: g.Bool(0.5)})
 		default:
